@@ -54,7 +54,6 @@ void run_solver_case(int si, long idx) {
         default: fprintf(stderr, "c14: bad solver index\n"); exit(3);
     }
 }
-inline void fill(amgcl::detail::empty_params &, ptree &, const std::string &, Env &);
 
 //--- runtime::preconditioner ------------------------------------------------
 template <class CT, class Fill> void precond_case(const char *klass, const char *what, long idx, Fill fillfn) {
